@@ -176,4 +176,56 @@ theorem foreign_run {v : Nat} : ∀ (acts : List Act) (h h' : Heap),
       obtain ⟨ha2, hc2⟩ := ih h1 h' hc1 (fun a ha => hf a (by simp [ha])) hr
       exact ⟨agree_trans ha1 ha2, hc2⟩
 
+theorem getElem?_append_left' {h ext : Heap} {a : Nat} {nd : MNode} (hx : h[a]? = some nd) :
+    (h ++ ext)[a]? = some nd := by
+  have hlt : a < h.length := (List.getElem?_eq_some_iff.mp hx).1
+  rw [List.getElem?_append_left hlt]; exact hx
+
+theorem contents_append (h ext : Heap) : ∀ (fuel : Nat) (l : HLink) (c : List Tok),
+    contents h fuel l = some c → contents (h ++ ext) fuel l = some c := by
+  intro fuel
+  induction fuel with
+  | zero => intro l c hc; cases l <;> simp_all [contents]
+  | succ f ih =>
+    intro l c hc
+    cases l with
+    | nil => simpa [contents] using hc
+    | ref n => simpa [contents] using hc
+    | ptr a =>
+      simp only [contents] at hc ⊢
+      cases hnd : h[a]? with
+      | none => simp [hnd] at hc
+      | some nd =>
+        simp only [hnd] at hc
+        rw [getElem?_append_left' hnd]
+        simp only []
+        have key : ∀ (ls : List HLink) (cs : List (List Tok)),
+            sequenceO (ls.map (contents h f)) = some cs →
+            sequenceO (ls.map (contents (h ++ ext) f)) = some cs := by
+          intro ls
+          induction ls with
+          | nil => intro cs h1; simpa [sequenceO] using h1
+          | cons x xs ihx =>
+            intro cs h1
+            simp only [List.map_cons] at h1 ⊢
+            cases hx : contents h f x with
+            | none => simp [hx, sequenceO] at h1
+            | some cx =>
+              rw [hx] at h1
+              rw [ih x cx hx]
+              simp only [sequenceO] at h1 ⊢
+              cases hrest : sequenceO (xs.map (contents h f)) with
+              | none => simp [hrest] at h1
+              | some crest =>
+                rw [hrest] at h1
+                rw [ihx crest hrest]
+                exact h1
+        cases hseq : sequenceO (nd.links.map (contents h f)) with
+        | none => simp [hseq] at hc
+        | some cs =>
+          rw [hseq] at hc
+          rw [key nd.links cs hseq]
+          exact hc
+
+
 end Mast.Heap
